@@ -11,6 +11,9 @@ value is the naive specification.
 import MemchrModel.Base.Lemmas
 import MemchrModel.Spec.Byte
 import MemchrModel.Model.MemchrGeneric
+import MemchrModel.Proofs.MemchrGenericFind
+import MemchrModel.Proofs.MemchrGenericRfind
+import MemchrModel.Proofs.MemchrGenericCount
 
 namespace Memchr.Generic
 
@@ -21,20 +24,23 @@ theorem findRaw_correct (V : VecImpl) (L : Lawful V) (ns : Needles) (u : Nat) (h
     (hs : m.base ≤ start) (he : end_ ≤ m.base + m.bytes.size) (hlen : start + V.bytes ≤ end_) :
     ∃ c', findRaw V ns u hu m start end_ c =
       .ok ((Spec.firstIdx ns.confirm (m.window start (end_ - start))).map (start + ·)) c' := by
-  sorry
+  obtain ⟨r, c', hrun, hres⟩ := findRaw_spec L ns u hu m start end_ c hs he hlen
+  exact ⟨c', by rw [hrun, hres.eq_spec]⟩
 
 theorem rfindRaw_correct (V : VecImpl) (L : Lawful V) (ns : Needles) (u : Nat) (hu : 0 < u)
     (m : Mem) (start end_ : Nat) (c : Ctr)
     (hs : m.base ≤ start) (he : end_ ≤ m.base + m.bytes.size) (hlen : start + V.bytes ≤ end_) :
     ∃ c', rfindRaw V ns u hu m start end_ c =
       .ok ((Spec.lastIdx ns.confirm (m.window start (end_ - start))).map (start + ·)) c' := by
-  sorry
+  obtain ⟨r, c', hrun, hres⟩ := rfindRaw_spec L ns u hu m start end_ c hs he hlen
+  exact ⟨c', by rw [hrun, hres.eq_spec]⟩
 
 theorem countRaw_correct (V : VecImpl) (L : Lawful V) (n1 : UInt8) (u : Nat) (hu : 0 < u)
     (m : Mem) (start end_ : Nat) (c : Ctr)
     (hs : m.base ≤ start) (he : end_ ≤ m.base + m.bytes.size) (hlen : start + V.bytes ≤ end_) :
     ∃ c', countRaw V n1 u hu m start end_ c =
-      .ok (Spec.countP (· == n1) (m.window start (end_ - start))) c' := by
-  sorry
+      .ok (Spec.countP (· == n1) (m.window start (end_ - start))) c' :=
+  countRaw_spec L n1 u hu m start end_ c hs he hlen
 
 end Memchr.Generic
+
